@@ -97,7 +97,7 @@ def split_stmts(body):
             if c == "}" and d == 0:
                 # a block statement such as `if ... { ... }` ends here unless followed by else / ;
                 rest = body[i+1:].lstrip()
-                if not rest.startswith("else") and not rest.startswith(";") and not rest.startswith(")") and not rest.startswith("."):
+                if not rest.startswith("else") and not rest.startswith(";") and not rest.startswith(")") and not rest.startswith(".") and not rest.startswith("="):
                     out.append(cur); cur = ""
         elif c == ";" and d == 0:
             out.append(cur); cur = ""
@@ -110,13 +110,46 @@ def parse_write(body, fields, enums, aliases):
     ops = []
     stmts = split_stmts(body)
     i = 0
+    locals_ = {}    # local name -> struct field, from `let Self { a, b: c, .. } = self;`
+    def norm(arg):
+        # equivalent spellings of a field reference: *x, &x, (x), a destructured local
+        a = arg.strip()
+        changed = True
+        while changed:
+            changed = False
+            for pre in ("*", "&"):
+                if a.startswith(pre): a = a[1:].strip(); changed = True
+            if a.startswith("(") and a.endswith(")") and a.count("(") == 1: a = a[1:-1].strip(); changed = True
+        if a in locals_: return "self." + locals_[a]
+        return a
     while i < len(stmts):
         s = stmts[i]
         if s in ("Ok(())",):
             i += 1; continue
+        md = re.fullmatch(r"let (?:Self|\w+) \{ (.*?),? \} = \*?&?self;", s)
+        if md:
+            for part in [x.strip() for x in md.group(1).split(",") if x.strip() and x.strip() != ".."]:
+                if ":" in part:
+                    f, l = [x.strip() for x in part.split(":", 1)]
+                    locals_[re.sub(r"^(ref|mut)\s+", "", l)] = f
+                else:
+                    locals_[re.sub(r"^(ref|mut)\s+", "", part)] = re.sub(r"^(ref|mut)\s+", "", part)
+            i += 1; continue
         m = re.fullmatch(r"buffer\.write_(\w+)\((.*)\)\.await\?;", s)
         if m:
             k, arg = m.group(1), m.group(2).strip()
+            # normalise: VarInt::from(<field>) / <field>.into() / plain field, with the field spelled in any way
+            mi = re.fullmatch(r"(.*)\.into\(\)", arg)
+            mv = re.fullmatch(r"VarInt::from\((.*)\)", arg)
+            if mi: arg = norm(mi.group(1)) + ".into()"
+            elif mv:
+                inner = norm(mv.group(1))
+                mf = re.fullmatch(r"self\.(\w+)", inner)
+                if mf and ftypes.get(mf.group(1)) in enums: arg = inner + ".into()"
+                else: arg = "VarInt::from(" + inner + ")"
+            else:
+                na = norm(arg)
+                if re.fullmatch(r"self\.\w+(\.0)?", na) or re.fullmatch(r"self\.\w+\.is_some\(\)", na): arg = na
             if k not in WRITE_KINDS: raise Unparsed("write kind " + k)
             kind = WRITE_KINDS[k]
             # optional: write_bool(self.f.is_some()) followed by `if let Some(x) = &self.f { write_K(x) }`
@@ -164,7 +197,7 @@ def parse_read(body, fields, enums, aliases):
     i = 0
     while i < len(stmts):
         s = stmts[i]
-        m = re.fullmatch(r"Ok\(Self( \{(.*)\})?\)", s)
+        m = re.fullmatch(r"Ok\((?:Self|[A-Z]\w*)( \{(.*)\})?\)", s)
         if m:
             ctor = m.group(2) or ""
             i += 1; continue
@@ -185,9 +218,13 @@ def parse_read(body, fields, enums, aliases):
             else:
                 raise Unparsed("optional read condition: " + s)
             binds.append((var, "KOpt " + WRITE_KINDS[k])); i += 1; continue
-        m = re.fullmatch(r"let (\w+) = (.*);", s)
+        m = re.fullmatch(r"let (\w+)(?: ?: ?[\w:<>]+)? = (.*);", s)
         if m:
             name, rhs = m.group(1), m.group(2).strip()
+            # `let y = E::try_from(x)?;` / `let y = x.try_into()?;` on the VarInt bound just before
+            mt = re.fullmatch(r"(?:\w+::try_from\((\w+)\)|(\w+)\.try_into\(\))\?", rhs)
+            if mt and binds and binds[-1][0] == (mt.group(1) or mt.group(2)) and binds[-1][1] == "KVarInt":
+                binds[-1] = (name, "ENUM"); i += 1; continue
             mr = re.fullmatch(r"buffer\.read_(\w+)\(\)\.await\?", rhs)
             if mr and mr.group(1) in WRITE_KINDS:
                 k = mr.group(1)
